@@ -109,3 +109,26 @@ def validate_traces(module, cfg, files, on_stuck, max_rounds=6, timeout=1800, pa
                 open(new, "w").writelines(rest)
                 todo.append(new)
     return accepted_runs, events, outputs
+
+
+class Pending:
+    """Collects the discrepancies of one part and reports them so that the first reports (the ones that
+    get a replay file and a VIOLATION line) cover every distinct (kind, shape tag) before repeating one."""
+
+    def __init__(self, rep):
+        self.rep = rep
+        self.items = []
+
+    def violation(self, kind, key, detail):
+        self.items.append((kind, key, detail))
+
+    def flush(self):
+        seen = {}
+        first, rest = [], []
+        for it in self.items:
+            cls = (it[0], it[1].split("]")[0] if it[1].startswith("[") else "")
+            seen[cls] = seen.get(cls, 0) + 1
+            (first if seen[cls] <= 3 else rest).append(it)
+        for kind, key, detail in first + rest:
+            self.rep.violation(kind, key, detail)
+        self.items = []
